@@ -244,7 +244,8 @@ TEXT_VALUES = ['', ' ', 'x', 'TRUE', 'false', 'INF', '-INF', 'NaN', '256',
                '<CLASS NAME="C"><FOO/></CLASS>', '<a>', '&', 'ab', 'aé',
                '\U0001F600', '1.5', '.5', '5.', '+', '--1', 'None',
                '\u00b2', '1\u00b9', '\u2460', '\uff11\uff12', '\u0663',
-               '\u0969', '\u00bd', '{0}', '%s']
+               '\u0969', '\u00bd', '{0}', '%s', '0x' + 'F' * 6000,
+               '-0x' + '1' * 5000, '0X' + '0' * 5000 + '1']
 ATTR_NAMES = ['NAME', 'TYPE', 'PARAMTYPE', 'CODE', 'DESCRIPTION',
               'ARRAYSIZE', 'CLASSNAME', 'VALUETYPE', 'PROPAGATED',
               'CLASSORIGIN', 'EmbeddedObject', 'EMBEDDEDOBJECT', 'ISARRAY',
